@@ -117,6 +117,7 @@ type run struct {
 	conns      map[int]*connSpec
 	batchSpins [nBatch]int
 	syncMode   bool
+	altSync    bool // syncMode only: a failing getter that answers through a promise in the real run does not fail here
 
 	// executor-thread state
 	curConn    *connSpec
